@@ -335,6 +335,10 @@ func c39After(aDate, aID int, aPeer int64, bDate, bID int, bPeer int64) bool {
 type c39DialogList struct {
 	dlgs []c39Dlg // in server order
 	kind string   // "full" or "slice"
+	// byPeer: the server pages by offset_peer alone (the next page starts after the
+	// dialog of that peer); dialogs may then come without their top message (noTop)
+	byPeer bool
+	noTop  map[int64]bool
 }
 
 func (l *c39DialogList) handle(inv *c39Invoker) func(bin.Encoder) (bin.Encoder, error) {
@@ -360,7 +364,16 @@ func (l *c39DialogList) handle(inv *c39Invoker) func(bin.Encoder) (bin.Encoder, 
 		default:
 			return nil, fmt.Errorf("fake server: unexpected offset peer %T", r.OffsetPeer)
 		}
-		if !(r.OffsetDate == 0 && r.OffsetID == 0 && peerKey == math.MaxInt64) {
+		if l.byPeer {
+			if peerKey != math.MaxInt64 {
+				start = n
+				for i, d := range l.dlgs {
+					if d.peerKey() == peerKey {
+						start = i + 1
+					}
+				}
+			}
+		} else if !(r.OffsetDate == 0 && r.OffsetID == 0 && peerKey == math.MaxInt64) {
 			start = sort.Search(n, func(i int) bool {
 				d := l.dlgs[i]
 				return c39After(d.Date, d.TopID, d.peerKey(), r.OffsetDate, r.OffsetID, peerKey)
@@ -383,7 +396,9 @@ func (l *c39DialogList) handle(inv *c39Invoker) func(bin.Encoder) (bin.Encoder, 
 		)
 		for _, d := range l.dlgs[start:end] {
 			ds = append(ds, &tg.Dialog{Peer: d.peer(), TopMessage: d.TopID})
-			msgs = append(msgs, &tg.Message{ID: d.TopID, PeerID: d.peer(), Date: d.Date, Message: "top"})
+			if !l.noTop[d.peerKey()] {
+				msgs = append(msgs, &tg.Message{ID: d.TopID, PeerID: d.peer(), Date: d.Date, Message: "top"})
+			}
 			switch d.Kind {
 			case 0:
 				users = append(users, &tg.User{ID: d.ID, AccessHash: d.ID + 1})
@@ -430,6 +445,18 @@ func TestC39Dialogs(t *testing.T) {
 		for i := 1; i < n; i++ {
 			if l.dlgs[i].Date == l.dlgs[i-1].Date {
 				ties = true
+			}
+		}
+		holes := 0
+		if rapid.IntRange(0, 3).Draw(t, "pagingByPeer") == 0 {
+			// a server that pages by offset_peer; some dialogs arrive without their
+			// top message (the client then has only the peer to move on with)
+			l.byPeer, l.noTop = true, map[int64]bool{}
+			for i := range l.dlgs {
+				if noise[5*i]%5 == 0 {
+					l.noTop[l.dlgs[i].peerKey()] = true
+					holes++
+				}
 			}
 		}
 
@@ -517,7 +544,10 @@ func TestC39Dialogs(t *testing.T) {
 		if ties {
 			classes = append(classes, "equal dates adjacent")
 		}
-		key := fmt.Sprintf("%s/%s/p%d/%v/%x", api, l.kind, page, want, noise)
+		if l.byPeer {
+			classes = append(classes, "paging=by-peer", fmt.Sprintf("dialogs-without-top-message>0=%v", holes > 0))
+		}
+		key := fmt.Sprintf("%s/%s/p%d/%v/%x/%v", api, l.kind, page, want, noise, l.byPeer)
 		st.Case(key, n > page, fmt.Sprintf("GetDialogs.%s kind=%s N=%d page=%d requests=%d", api, l.kind, n, page, requestsToEnd), classes...)
 	})
 }
